@@ -8,7 +8,7 @@ Driver for C12.  Protocol (one case):
   src <hex>                       the text
   raw (<kind> <lo> <hi>)* | raw - the raw logos stream
   lex                             -> m n=<tokens> h=<fnv64 of the post-pass result> tiles=<b> rawtiles=<b>
-  toks (<kind> <lo> <hi>)*        the real token list
+  toks (<kind> <lo> <hi>)* | toks - | toks =   the real token list (`=`: identical to the raw stream)
   ev <event>*                     the real parser events: S<k> | S<k>+<fp> | T<k> | T<k>*<n> | F | P
   sink                            -> m ok nodes=<n> toks=<n> h=<fnv64 of the tree dump> text=<b> prem=<5 bits>
                                      | m panic | m diverge
@@ -118,6 +118,7 @@ def step (st : St) (line : String) : St × Option String :=
     match parseToks ws with
     | some ts => ({ st with raw := ts }, none)
     | none => (st, some "bad-op")
+  | ["toks", "="] => ({ st with toks := st.raw }, none)
   | "toks" :: ws =>
     match parseToks ws with
     | some ts => ({ st with toks := ts }, none)
